@@ -132,7 +132,13 @@ def rt (a : List String) (impl : List String) : String :=
         -- the configured global timeout is applied: when it fires on the outstanding attempt the reply is the timeout status
         | some .global => ias.length = 0 || final == "504"
         | _ => true
-      let spec := traceOk p t && budgetOk && pathsOk && hdrsOk && kindsOk && lastOk && final != "multi"
+      -- the converse: a retryable outcome with budget left is retried (breaker admits, hosts healthy); not demanded when the
+      -- exchange got no reply at all (a lost worker is C03's concern)
+      let retriedOk := final == "-" || (List.range ias.length).all (fun i =>
+        match script[i]? with
+        | some o => !(retryable p o && decide (i < max 3 nr)) || decide (i + 1 < ias.length)
+        | none => true)
+      let spec := traceOk p t && retriedOk && budgetOk && pathsOk && hdrsOk && kindsOk && lastOk && final != "multi"
       s!"{if m == out then "A" else "D"} {if spec then "S" else "V"} {m}"
     | _, _, _, _, _, _, _ => "E E bad-case"
   | _, _ => "E E bad-case"
